@@ -121,7 +121,7 @@ def extract_body(relpath, anchor, occurrence=None, of=None, within=None):
         raise ExtractionError("%s: anchor /%s/ matched %d times (need %d)" %
                               (relpath, anchor, len(ms), want))
     m = ms[0 if occurrence is None else occurrence]
-    pos = lo + m.end()
+    pos = lo + m.start()
     # find the opening brace of the body: first '{' at paren depth 0; a ';'
     # first means this was a declaration, not a definition.
     depth = 0
